@@ -180,53 +180,144 @@ func c20(r *core.Run) {
 	if h := core.HandlerByKey(hs, "filetree.MsgPostFile"); h == nil {
 		r.Undecided("C20/R2", "filetree.MsgPostFile:anchor-missing", "", "handler missing")
 	} else {
-		var step *ssa.Call
+		// the unit that applies the combiner: the handler itself or a helper it calls (then hop is that call)
+		var step, hop *ssa.Call
+		unit := h.Fn
 		allInstrs(h.Fn, func(in ssa.Instruction) {
-			if c, ok := in.(*ssa.Call); ok {
-				for _, cal := range p.Callees(c) {
-					if cal == combiner {
-						step = c
-					}
+			c, ok := in.(*ssa.Call)
+			if !ok {
+				return
+			}
+			for _, cal := range p.Callees(c) {
+				if cal == combiner {
+					step, unit, hop = c, h.Fn, nil
 				}
 			}
 		})
+		if step == nil {
+			allInstrs(h.Fn, func(in ssa.Instruction) {
+				c, ok := in.(*ssa.Call)
+				if !ok || step != nil {
+					return
+				}
+				for _, g := range p.Callees(c) {
+					if g == combiner || g.Blocks == nil || core.ModuleOf(g) != "filetree" {
+						continue
+					}
+					allInstrs(g, func(in2 ssa.Instruction) {
+						if c2, ok := in2.(*ssa.Call); ok {
+							for _, cal := range p.Callees(c2) {
+								if cal == combiner {
+									step, unit, hop = c2, g, c
+								}
+							}
+						}
+					})
+				}
+			})
+		}
 		if step == nil {
 			r.Violation("C20/R2", h.Key()+":uses-combiner", p.Pos(h.Fn.Pos()), "the post handler does not derive the entry address with the one-step combiner")
 		} else {
 			a := dataArgs(step)
 			// the message fields themselves: not a value chosen between the field and something else (a default parent)
-			tbc := core.NewTermBuilder(p)
+			outer := core.NewTermBuilder(p)
+			tbc := outer
+			if hop != nil {
+				tbc = core.NewTermBuilder(p)
+				tbc.Bind = map[*ssa.Parameter]core.BoundVal{}
+				hc := hop.Common()
+				var actuals []ssa.Value
+				if hc.IsInvoke() {
+					actuals = append(actuals, hc.Value)
+				}
+				actuals = append(actuals, hc.Args...)
+				for i, prm := range unit.Params {
+					if i < len(actuals) {
+						tbc.Bind[prm] = core.BoundVal{Val: actuals[i], TB: outer}
+					}
+				}
+			}
 			mp := fmt.Sprintf("P%d", h.MsgIdx)
 			ok := len(a) == 2 && p.OnlyMsgField(p.ProvAt(a[0], "", step), h, "HashParent") && p.OnlyMsgField(p.ProvAt(a[1], "", step), h, "HashChild") &&
 				tbc.Term(a[0]) == mp+".HashParent" && tbc.Term(a[1]) == mp+".HashChild"
 			r.Check(ok, "C20/R2", h.Key()+":combiner-arguments", p.InstrPos(step), "combiner(msg.HashParent, msg.HashChild)", "the entry address is not combiner(msg.HashParent, msg.HashChild), the two message fields as they are, in that order (a substituted parent — e.g. the root folder for an empty HashParent — files a one-segment path under another path's address)")
-			// stored Address / returned Path / owner hash input are this value
-			for _, e := range p.Effects(h.Fn) {
-				call, isCall := e.Instr.(ssa.CallInstruction)
-				if !isCall || len(e.Store) == 0 {
-					continue
+			// isStep: v is the combiner's result, in the unit or (in the handler) the unit's result that carries it
+			isStep := func(v ssa.Value) bool {
+				if core.SameValue(v, step) {
+					return true
 				}
-				rec := dataArgs(call)[0]
-				if al := recordAlloc(rec); al != nil {
+				if hop != nil {
+					if ex, ok := v.(*ssa.Extract); ok && ex.Tuple == ssa.Value(hop) {
+						for _, b := range unit.Blocks {
+							if ret, ok := b.Instrs[len(b.Instrs)-1].(*ssa.Return); ok && ex.Index < len(ret.Results) && !core.SameValue(ret.Results[ex.Index], step) {
+								return false
+							}
+						}
+						return true
+					}
+				}
+				return false
+			}
+			// stored Address: the record handed to the setter carries the combiner's result
+			nSet := 0
+			for _, fn := range []*ssa.Function{h.Fn, unit} {
+				if fn == unit && unit == h.Fn && nSet > 0 {
+					break
+				}
+				for _, e := range p.Effects(fn) {
+					call, isCall := e.Instr.(ssa.CallInstruction)
+					if !isCall || !performsDirectly(p, fn, e, "Set", "filetree/Files/value/") || e.Direct {
+						continue
+					}
+					nSet++
+					rec := dataArgs(call)[0]
+					al := recordAlloc(rec)
+					if al != nil && len(fieldStores(al, "Address")) == 0 {
+						// a local that merely holds a record produced elsewhere: look at what was stored into it
+						for _, ref := range *al.Referrers() {
+							if st, ok := ref.(*ssa.Store); ok && st.Addr == al {
+								rec, al = st.Val, recordAlloc(st.Val)
+							}
+						}
+					}
+					if al == nil && hop != nil {
+						// the record built by the unit and returned to the handler
+						if ex, ok := rec.(*ssa.Extract); ok && ex.Tuple == ssa.Value(hop) {
+							for _, b := range unit.Blocks {
+								if ret, ok := b.Instrs[len(b.Instrs)-1].(*ssa.Return); ok && ex.Index < len(ret.Results) {
+									al = recordAlloc(ret.Results[ex.Index])
+								}
+							}
+						}
+					}
 					okA := false
-					for _, st := range fieldStores(al, "Address") {
-						okA = core.SameValue(st.Val, step)
+					if al != nil {
+						for _, st := range fieldStores(al, "Address") {
+							okA = isStep(st.Val)
+						}
 					}
 					r.Check(okA, "C20/R2", h.Key()+":stored-address", p.InstrPos(call), "stored Address is the combiner's result", "the stored Address is not the value computed by the combiner")
 				}
+				if unit == h.Fn {
+					break
+				}
+			}
+			if nSet == 0 {
+				r.Undecided("C20/R2", h.Key()+":stored-address", p.Pos(h.Fn.Pos()), "no call of the record setter found in the handler or the unit applying the combiner")
 			}
 			okPath := false
 			allInstrs(h.Fn, func(in ssa.Instruction) {
 				if st, ok := in.(*ssa.Store); ok {
 					if fa, ok := st.Addr.(*ssa.FieldAddr); ok && core.FieldName(fa.X.Type(), fa.Field) == "Path" && strings.HasSuffix(core.TypeName(fa.X.Type()), "MsgPostFileResponse") {
-						okPath = core.SameValue(st.Val, step)
+						okPath = isStep(st.Val)
 					}
 				}
 			})
 			r.Check(okPath, "C20/R2", h.Key()+":returned-path", p.Pos(h.Fn.Pos()), "returned Path is the combiner's result", "the address returned to the client differs from the stored one")
 			// owner computed from that address
 			okOwner := false
-			allInstrs(h.Fn, func(in ssa.Instruction) {
+			allInstrs(unit, func(in ssa.Instruction) {
 				if c, ok := in.(*ssa.Call); ok && c != step {
 					for _, a := range c.Call.Args {
 						if core.SameValue(a, step) && len(p.Callees(c)) == 1 && p.Callees(c)[0] != combiner && c.Type().String() == "string" {
